@@ -972,8 +972,10 @@ class KafkaClient(object):
                 continue
             self.clients[node_id].updateMetadata(broker_meta)
 
-        # Remove any clients for brokers which no longer exist.
+        # Forget brokers which no longer exist, and remove their clients.
         if remove:
+            for node_id in set(self._brokers) - set(brokers_by_id):
+                del self._brokers[node_id]
             to_close = [self.clients.pop(node_id) for node_id in set(self.clients) - set(brokers_by_id)]
 
             if to_close:
